@@ -108,7 +108,26 @@ fn operands(prop: &str, op: u16, sl: L, dl: L, mode: usize, ia: Ing, ib: Ing, r1
                     let top = if sl.signed { sl.w - 1 } else { sl.w };
                     wrap_add(1u128 << (r2 % top as u128) as u32, small(r1))
                 }
-                4 => wrap_add(one, small(r1) * if (r1 >> 8) & 1 == 1 { 1 } else { 1 << ((r1 >> 9) % 20) }),
+                4 if (r1 >> 8) & 3 != 0 => wrap_add(one, small(r1) * if (r1 >> 10) & 1 == 1 { 1 } else { 1 << ((r1 >> 11) % 20) }),
+                4 => {
+                    // 2^j (1 +- d) with the distance d from a power of two log-uniform over the whole fraction:
+                    // d = m 2^t ulp, m a random 16-bit odd number, t anywhere below the fraction width
+                    let m = ((r1 >> 16) & 0xffff | 1) as u128;
+                    let t = if sl.f > 17 { ((r1 >> 32) % (sl.f as u128 - 16)) as u32 } else { 0 };
+                    let d = Big::from_u128(m).shl(t);
+                    let base = Big::from_u128(one);
+                    let x = if (r1 >> 50) & 1 == 1 { base.sub(&d) } else { base.add(&d) };
+                    // scale by a power of two that keeps every bit (right shifts only by the trailing zeros)
+                    let top = if sl.signed { sl.w - 1 } else { sl.w };
+                    let room_up = top.saturating_sub(sl.f + 2);
+                    let up = if room_up > 0 { ((r2 >> 8) % (room_up as u128 + 1)) as u32 } else { 0 };
+                    let x = match (r2 >> 4) % 3 {
+                        0 => x,
+                        1 => x.shl(up),
+                        _ => x.shr_floor(t.min(((r2 >> 8) % (sl.f as u128 + 1)) as u32)),
+                    };
+                    sl.wrap(&x)
+                }
                 5 => {
                     // perfect squares +- 1 ulp: y^2 with y of at most half the width
                     let yb = 1 + (r2 % ((sl.w - 1) as u128 / 2)) as u32;
@@ -250,20 +269,49 @@ fn operands(prop: &str, op: u16, sl: L, dl: L, mode: usize, ia: Ing, ib: Ing, r1
                 5 if (r1 >> 40) & 1 == 0 => sl.wrap(&Big::from_i64(small(r1) * (1 + (r1 >> 8) as i64 % 1000))), // tiny angles
                 5 => {
                     // CORDIC convergence points: +-atan(1) +- atan(1/2) +- ... (n terms, each truncated to the type's
-                    // resolution as the rotation does), where the residual angle becomes exactly zero; plus whole turns
-                    let n = 1 + ((r1 >> 44) % 10) as u32;
+                    // resolution as the rotation does), where the residual angle becomes exactly zero; plus whole turns.
+                    // Variants aim the same points at the inner calls: cos(x) rotates by x + pi/2, tan(x) by 2x and
+                    // 2x + pi/2 (quarter turns and turns use the 23-bit constants the reduction works with).
+                    let n = 1 + ((r1 >> 44) % 24) as u32;
                     let mut acc = Big::zero();
                     for i in 0..n {
                         let t = mp_to_raw(sl, &atan_pow2(i));
                         let t = Big::from_u128(t);
                         acc = if (r1 >> (50 + i)) & 1 == 1 { acc.sub(&t) } else { acc.add(&t) };
                     }
+                    let c23 = |v: Mp| -> Big { v.shr_floor(P - 23).shl(sl.f - 23) };
+                    let (h, t2) = (c23(pi_mp().shr_floor(1)), c23(pi_mp().shl(1)));
                     let turns = ((r2 >> 16) % 5) as i64 - 2;
-                    let two_pi = Big::from_u128(mp_to_raw(sl, &pi_mp().shl(1)));
-                    sl.wrap(&acc.add(&two_pi.mul(&Big::from_i64(turns))).add_i64(small(r2) / 2))
+                    let q = ((r2 >> 24) % 4) as i64;
+                    let v = (r2 >> 28) % 6;
+                    let mut num = acc.add(&t2.mul(&Big::from_i64(turns)));
+                    if v >= 2 {
+                        num = num.add(&h.mul(&Big::from_i64(q)));
+                    }
+                    if v == 1 || v == 3 || v == 5 {
+                        num = num.sub(&h);
+                    }
+                    let x = if v >= 2 && v <= 3 || v == 5 { num.shr_floor(1) } else { num };
+                    let x = if v == 0 { x.add_i64(small(r2) / 2) } else { x };
+                    if x.abs() <= cap { sl.wrap(&x) } else { sl.wrap(&acc) }
                 }
                 6 => wrap_add(sl.wrap(&cap), -(r1 as i64 & 0xff)),
-                _ if prop == "C17" || prop == "C12" && mode == 7 && false => pattern(sl, ia),
+                7 if prop == "C17" && (r1 >> 3) & 1 == 1 => {
+                    // boundaries of the argument reduction at any magnitude: m turns + q quarter turns (23-bit
+                    // constants) +- a distance log-uniform between one ulp and 2^-20
+                    let c23 = |v: Mp| -> Big { v.shr_floor(P - 23).shl(sl.f - 23) };
+                    let (h, t2) = (c23(pi_mp().shr_floor(1)), c23(pi_mp().shl(1)));
+                    let mmax = sl.hi().div_trunc(&t2);
+                    let m = if (r1 >> 4) & 1 == 1 { mmax.add_i64(-(((r1 >> 8) % 3) as i64)) } else { Big::from_u128(r2 % (mmax.low_u128() + 1)) };
+                    let q = ((r1 >> 16) % 5) as i64;
+                    let span = sl.f.saturating_sub(20).max(1);
+                    let e = Big::from_u128(((r1 >> 24) & 0xff | 1) as u128).shl(((r1 >> 40) % span as u128) as u32);
+                    let e = if (r1 >> 60) & 1 == 1 { e.neg() } else { e };
+                    let x = t2.mul(&m).add(&h.mul(&Big::from_i64(q))).add(&e);
+                    let x = if (r1 >> 61) & 1 == 1 { x.neg() } else { x };
+                    sl.clamp(&x)
+                }
+                _ if prop == "C17" => pattern(sl, ia),
                 _ => {
                     let v = Big::from_u128(r1 % (cap.low_u128() + 1));
                     sl.wrap(&if (r2 >> 7) & 1 == 1 { v.neg() } else { v })
@@ -331,11 +379,12 @@ impl Engine for Math {
         match (prop, tier) {
             ("C12", Tier::Quick) => Budget { random: 400_000, per_stratum: 4_000, strata },
             ("C12", Tier::Thorough) => Budget { random: 40_000_000, per_stratum: 200_000, strata },
-            ("C17", Tier::Quick) => Budget { random: 400_000, per_stratum: 4_000, strata },
+            ("C17", Tier::Quick) => Budget { random: 2_000_000, per_stratum: 20_000, strata },
             ("C17", Tier::Thorough) => Budget { random: 40_000_000, per_stratum: 200_000, strata },
-            ("C16", Tier::Quick) => Budget { random: 600_000, per_stratum: 10_000, strata: (0..11).collect() },
+            ("C16", Tier::Quick) => Budget { random: 2_000_000, per_stratum: 30_000, strata: (0..11).collect() },
             ("C16", Tier::Thorough) => Budget { random: 60_000_000, per_stratum: 1_000_000, strata: (0..11).collect() },
-            (_, Tier::Quick) => Budget { random: 150_000, per_stratum: 2_000, strata },
+            ("C15", Tier::Quick) => Budget { random: 150_000, per_stratum: 2_000, strata },
+            (_, Tier::Quick) => Budget { random: 1_500_000, per_stratum: 20_000, strata },
             (_, Tier::Thorough) => Budget { random: 15_000_000, per_stratum: 100_000, strata },
         }
     }
@@ -749,6 +798,29 @@ impl Engine for Math {
                     ev.nontrivial = matches!(want, Out::V(_));
                     if res != want && !pos.is_panic() {
                         fail(&mut ev, "result", &res, format!("{} (= 1.checked_div(powi(x, {})) with powi(x, {}) = {})", want.show(), -(n as i64), -(n as i64), pos.show()));
+                    }
+                } else if let Some(r) = rv {
+                    // n = i32::MIN: |n| = 2^31 is not an i32, so there is no powi(x, |n|) to call; an Ok result must
+                    // still be the truncated reciprocal of some p within (|n|+1) max(1,|x|)^(|n|-1) ulp of x^(2^31)
+                    let l = mp::ln_of(&xd.abs(), -(dl.f as i64));
+                    let big_n = Big::pow2(31);
+                    let nl = l.mul(&big_n);
+                    if nl.abs() < mp::from_i64(40) {
+                        let truth = mp::exp(&nl); // even exponent: positive
+                        let ml = if l.is_pos() { l.mul(&big_n.add_i64(-1)) } else { Big::zero() };
+                        let b = mp::exp(&ml).mul(&big_n.add_i64(1)).shr_floor(dl.f);
+                        let lo = truth.sub(&b);
+                        if lo.is_pos() {
+                            let hi = truth.add(&b);
+                            let rmin = mp::div(&mp::one(), &hi).sub(&tol_ulps(dl, 2));
+                            let rmax = mp::div(&mp::one(), &lo).add(&tol_ulps(dl, 2));
+                            let got = r_mp(dl, r);
+                            ev.nontrivial = true;
+                            ev.class("powi-i32-min-value");
+                            if got < rmin || got > rmax {
+                                fail(&mut ev, "result", &res, format!("the reciprocal of x^(2^31) within its bound: [{:.9e}, {:.9e}] (got {:.9e})", mp::to_f64(&rmin), mp::to_f64(&rmax), mp::to_f64(&got)));
+                            }
+                        }
                     }
                 }
             }
